@@ -270,6 +270,22 @@ var defaultIfaceTypes = []reflect.Type{
 	reflect.TypeOf((*int)(nil)), reflect.TypeOf((*string)(nil)),
 }
 
+func init() {
+	// every []T and map[string]T of the 14 scalar types (each has its own
+	// typed event, adapter function and unfolder)
+	seen := map[reflect.Type]bool{}
+	for _, t := range defaultIfaceTypes {
+		seen[t] = true
+	}
+	for _, e := range scalarTypes {
+		for _, t := range []reflect.Type{reflect.SliceOf(e), reflect.MapOf(TString, e)} {
+			if !seen[t] {
+				defaultIfaceTypes = append(defaultIfaceTypes, t)
+			}
+		}
+	}
+}
+
 type ValueGen struct {
 	R *Rand
 	O GoValueOpts
